@@ -156,6 +156,15 @@ def judge_precision(r, scn, V, where, tag_prefix=""):
     for it, b, blob in r.payloads:
         st = pickle.loads(blob)
         _judge_arrays(V, f"{tag_prefix}checkpoint(iteration={it})", _fields(st["samples"]), want_bits, want_ns, where, seen)
+    # the per-iteration diagnostics are computed from the populations: their width betrays a population that was built
+    # or restored in another precision even when it is never recorded itself
+    if h is not None and hasattr(h, "log_norm_ratio"):
+        for name in ("log_norm_ratio", "ess"):
+            for i, v in enumerate(getattr(h, name)):
+                if hasattr(v, "dtype") and "float" in str(v.dtype) and _width(v) != want_bits:
+                    V.append(O.violation("c15.precision", f"{tag_prefix}history.{name}[{i}] was computed in float{_width(v)}; the run was asked for float{want_bits}",
+                                         {**where, "population": "history_series", "field": name, "got_bits": _width(v), "want_bits": want_bits}))
+                    return
 
 
 def run_case(case, workdir):
@@ -225,6 +234,13 @@ def run_case(case, workdir):
                         if rr.status == "ok":
                             judge_precision(rr, scn, V, {**where, "resumed": True, "route": route}, tag_prefix="after resume: ")
                             keys.append(key + ["resumed", route])
+                # ... and a resume of the FINISHED run: what comes back is the restored population itself
+                fin = r.payloads[-1][2]
+                rf = run_process(scn, workdir, resume=("bytes", fin), proc_no=2)
+                evaluations += 1
+                if rf.status == "ok":
+                    rf.model_seen = set()
+                    judge_precision(rf, scn, V, {**where, "resumed": True, "route": "bytes", "resumed_finished_run": True}, tag_prefix="after resuming the finished run: ")
         if kind == "xp_out":
             s0 = copy.deepcopy(scn)
             s0["xp_out"] = None
